@@ -115,7 +115,7 @@ def run(c):
     c.samples = [nodes[0], nodes[len(nodes) // 2], nodes[-1]]
     ind = apalache_inductive(c, (1, 2, 3) if quick else (1, 2, 3, 4, 5, 6))
     st = tr["stats"]
-    if min(st.get(k, 0) for k in ("meanChecked", "zeroSamples", "bigValues", "cycles", "discards", "reconfigs", "reactivations")) == 0:
+    if not c.violations and min(st.get(k, 0) for k in ("meanChecked", "zeroSamples", "bigValues", "cycles", "discards", "reconfigs", "reactivations")) == 0:
         raise vlib.NoVerdict("vacuous run: %s" % st)
     return c.finish("model_checking", dict(
         states=dist, transitions=gen, traces_validated_against_impl=len(nodes),
